@@ -55,6 +55,19 @@ func init() {
 		m.unsupported("getExtensionHTTP on " + i.T.String())
 		return nil
 	})
+	// proto.Marshal is modelled for google.rpc.Status only (the grpc-status-details-bin trailer): the
+	// harness's vfMarshalRPCStatus writes the wire form; natively the real proto.Marshal runs.
+	reg("google.golang.org/protobuf/proto.Marshal", func(m *Machine, fn *ssa.Function, args []Value) Value {
+		i, _ := args[0].(Iface)
+		if i.T == nil || i.T.String() != "*google.golang.org/genproto/googleapis/rpc/status.Status" {
+			m.unsupported("proto.Marshal of " + m.show(i))
+		}
+		f := m.Prog.Func("vfMarshalRPCStatus")
+		if f == nil {
+			m.unsupported("vfMarshalRPCStatus not defined by the harness")
+		}
+		return m.callFn(f, []Value{i}, nil)
+	})
 	// proto.Clone: field-wise copy of the pointed-to struct (used for google.rpc.Status).
 	reg("google.golang.org/protobuf/proto.Clone", func(m *Machine, fn *ssa.Function, args []Value) Value {
 		i, _ := args[0].(Iface)
